@@ -128,7 +128,23 @@ def opt_src(z):
 RECORD = 'DIG 2; SWAP; CONS; SWAP'       # result bm obs  ->  bm (result :: obs)
 
 
+def linear(script):
+    """The linear history a script with forks stands for: a fork DUPs the big_map, applies updates to the copy and
+    then either keeps the copy (dropping the original: the updates count) or drops it (the updates must leave no trace)."""
+    out = []
+    for ins in script:
+        if ins[0] == 'fork':
+            if ins[1]:
+                out.extend(ins[2])
+        else:
+            out.append(ins)
+    return out
+
+
 def instr_src(ts, ins, vt):
+    if ins[0] == 'fork':
+        inner = '; '.join(instr_src(ts, u, vt) for u in ins[2])
+        return f'DUP; {inner + "; " if inner else ""}' + ('SWAP; DROP' if ins[1] else 'DROP')
     op, k = ins[0], V.value_src(ins[1])
     if op == 'update':
         return f'{vt.push_opt(ins[2])}; PUSH {ts} {k}; UPDATE'
@@ -293,6 +309,136 @@ def oracle(t, universe, ptr, chain, lit, script, out, vt=V.VT_INT):
     return None
 
 
+# ------------------------------------------------------------------------------------ two on-chain big_maps in one run (oracle only)
+
+RECORD2 = 'DIG 3; SWAP; CONS; DUG 2'     # result A B obs  ->  A B (result :: obs)
+
+
+def two_maps_src(t, script, vt):
+    ts = V.type_src(t)
+    parts = []
+    for which, ins in script:
+        k = V.value_src(ins[1])
+        if ins[0] == 'update':
+            code = f'{vt.push_opt(ins[2])}; PUSH {ts} {k}; UPDATE'
+        elif ins[0] == 'gau':
+            code = f'{vt.push_opt(ins[2])}; PUSH {ts} {k}; GET_AND_UPDATE; {RECORD2}'
+        elif ins[0] == 'get':
+            code = f'DUP; PUSH {ts} {k}; GET; {RECORD2}'
+        else:
+            code = f'DUP; PUSH {ts} {k}; MEM; IF {{ {vt.push_opt(1)} }} {{ {vt.push_opt(0)} }}; {RECORD2}'
+        parts.append(code if which == 'A' else f'SWAP; {code}; SWAP')
+    body = '; '.join(parts)
+    return (f'parameter unit; storage (pair (pair (big_map {ts} {vt.src}) (big_map {ts} {vt.src})) (list (option {vt.src}))); '
+            f'code {{ CDR; UNPAIR; UNPAIR; {body + "; " if body else ""}PAIR; PAIR; NIL operation; PAIR }}')
+
+
+def run_two_maps(t, pool, ids, chains, script, vt):
+    """Two on-chain-backed big_maps (different ids, overlapping keys, disagreeing values) in one run_code call.
+    Returns a reason (string) when the layered-dictionary reference is contradicted, else None; plus the contract."""
+    from pytezos.michelson.parse import michelson_to_micheline
+    from pytezos.michelson.repl import Interpreter
+    table = {}
+    for which in (0, 1):
+        for k, v in chains[which].values():
+            table[(ids[which], script_expr(k))] = vt.micheline(v)
+    src = two_maps_src(t, script, vt)
+    storage = {'prim': 'Pair', 'args': [{'prim': 'Pair', 'args': [{'int': str(ids[0])}, {'int': str(ids[1])}]}, []]}
+    ok, res = lib.call(Interpreter.run_code, {'prim': 'Unit'}, storage, michelson_to_micheline(src), shell=StubShell(table), block_id='head')
+    if not ok:
+        return f'run_code raised {type(res).__name__}: {res}'[:300], src
+    operations, new_storage, lazy_diff, stdout, error = res
+    if error is not None:
+        return f'run_code failed: {error}'[:300], src
+    # reference
+    cur = [dict(chains[0]), dict(chains[1])]
+    want = []
+    for which, ins in script:
+        d = cur[0 if which == 'A' else 1]
+        c = V.canon(ins[1])
+        if ins[0] in ('update', 'gau'):
+            if ins[0] == 'gau':
+                want.append(d[c][1] if c in d else None)
+            if ins[2] is None:
+                d.pop(c, None)
+            else:
+                d[c] = (ins[1], ins[2])
+        elif ins[0] == 'get':
+            want.append(d[c][1] if c in d else None)
+        else:
+            want.append(1 if c in d else 0)
+    try:
+        args = new_storage['args']
+        obs_list = args[-1] if isinstance(args[-1], list) else []
+        got = [None if o['prim'] == 'None' else vt.decode_micheline(o['args'][0]) for o in obs_list]
+        got.reverse()
+        if got != want:
+            i = next((i for i in range(min(len(got), len(want))) if got[i] != want[i]), None)
+            return (f'observation {i} ({script[[j for j, (_, x) in enumerate(script) if x[0] != "update"][i]] if i is not None else "count"}) is '
+                    f'{got[i] if i is not None else len(got)}, the layered dictionary of that big_map gives {want[i] if i is not None else len(want)}'), src
+        uni = {json.dumps(V.value_micheline(v), sort_keys=True): v for v in pool}
+        for which in (0, 1):
+            d = next((x for x in lazy_diff if x['kind'] == 'big_map' and str(x['id']) == str(ids[which])), None)
+            if d is None or d['diff']['action'] != 'update':
+                return f'no update diff for big_map {ids[which]}', src
+            store = {script_expr(k): z for k, z in chains[which].values()}
+            for u in d['diff']['updates']:
+                key = uni.get(json.dumps(lib.canon_micheline(V.norm_out(t, u['key'])), sort_keys=True))
+                if key is None or u['key_hash'] != script_expr(key):
+                    return f'diff of big_map {ids[which]} has a foreign key or a wrong key_hash', src
+                if 'value' in u:
+                    store[u['key_hash']] = vt.decode_micheline(u['value'])
+                else:
+                    store.pop(u['key_hash'], None)
+            if store != {script_expr(k): z for k, z in cur[which].values()}:
+                return f'the diff of big_map {ids[which]} applied to its on-chain content does not give its final dictionary', src
+    except (KeyError, IndexError, TypeError, ValueError, AssertionError) as e:
+        return f'unexpected output shape ({type(e).__name__}: {e})', src
+    return None, src
+
+
+def gen_two_maps(rng):
+    t = rng.choice(KEY_TYPES)
+    pool = [_small(V.gen_value(rng, t))]
+    tries = 0
+    while len(pool) < 4 and tries < 30:
+        tries += 1
+        v = _small(V.mutate(rng, t, rng.choice(pool)) if rng.random() < 0.8 else V.gen_value(rng, t))
+        if V.canon(v) not in [V.canon(x) for x in pool]:
+            pool.append(v)
+    vt = rng.choice(V.VALUE_TYPES[:6])
+    n = 6 if vt.is_int else len(vt.lits)
+    chains = [{}, {}]
+    for i, v in enumerate(pool):
+        a = rng.randrange(n)
+        b = (a + 1 + rng.randrange(n - 1)) % n          # a value different from a
+        mode = rng.random()
+        if i == 0 or mode < 0.45:                        # in both maps, with different values
+            chains[0][V.canon(v)] = (v, a)
+            chains[1][V.canon(v)] = (v, b)
+        elif mode < 0.7:
+            chains[0][V.canon(v)] = (v, a)               # only in the first
+        elif mode < 0.9:
+            chains[1][V.canon(v)] = (v, b)               # only in the second
+    ids = rng.choice([(7, 8), (0, 1), (8, 7), (12, 99999)])
+    script = []
+    for _ in range(rng.randrange(4, 15)):
+        k = rng.random()
+        key = rng.choice(pool)
+        which = rng.choice('AB')
+        if k < 0.45:
+            script.append((which, ('get', key)))
+            if rng.random() < 0.6:                       # the same key in the other map right afterwards
+                script.append(('B' if which == 'A' else 'A', ('get' if rng.random() < 0.7 else 'mem', key)))
+        elif k < 0.6:
+            script.append((which, ('mem', key)))
+        elif k < 0.85:
+            script.append((which, ('update', key, vt.gen(rng) if rng.random() < 0.5 else None)))
+        else:
+            script.append((which, ('gau', key, vt.gen(rng) if rng.random() < 0.5 else None)))
+    return t, pool, ids, chains, script, vt
+
+
 # ------------------------------------------------------------------------------------ generation
 
 def _small(v):
@@ -347,6 +493,10 @@ def gen_case(rng, max_len):
             script.append(('get', key))
         else:
             script.append(('mem', key))
+        if rng.random() < 0.12:
+            # forked history: DUP, 1-3 updates on the copy (removals / re-insertions of the universe's keys), keep or drop it
+            ups = [('update', rng.choice(pool), z() if rng.random() < 0.5 else None) for _ in range(rng.randrange(1, 4))]
+            script.append(('fork', rng.random() < 0.35, ups))
     return t, pool, ptr, chain, lit, script, vt
 
 
@@ -364,7 +514,13 @@ def coq_obs(ob):
 def describe(t, ptr, chain, lit, script, vt=V.VT_INT):
     return {'key_type': V.type_src(t), 'value_type': vt.src + ('' if vt.is_int else ' — values shown as codes: ' + ('ticket amount (0 = None)' if vt.ticket else 'index into ' + repr([x[0] for x in vt.lits]))), 'big_map': (f'id {ptr} with on-chain ' + str({V.value_src(k): z for k, z in chain.values()})) if ptr is not None
             else 'literal ' + str({V.value_src(k): z for k, z in lit}),
-            'history': [f'{i[0].upper()} {V.value_src(i[1])}' + (f' := {opt_src(i[2])}' if len(i) > 2 else '') for i in script]}
+            'history': [_show(i) for i in script]}
+
+
+def _show(i):
+    if i[0] == 'fork':
+        return 'DUP; on the copy: [' + ', '.join(_show(u) for u in i[2]) + ']; then ' + ('keep the copy, drop the original' if i[1] else 'drop the copy')
+    return f'{i[0].upper()} {V.value_src(i[1])}' + (f' := {opt_src(i[2])}' if len(i) > 2 else '')
 
 
 def run(ctx: lib.Ctx) -> None:
@@ -396,6 +552,8 @@ def run(ctx: lib.Ctx) -> None:
     tcases, tmeta = [], []
     for t, pool, ptr, chain, lit, script, vt in gen:
         res, src = run_impl(t, pool, ptr, chain, lit, script, vt)
+        full_script, script = script, linear(script)
+        n_forks = sum(1 for i in full_script if i[0] == 'fork')
         out = decode_impl(t, pool, script, res, vt) if not isinstance(res, str) else res
         upd = {}
         chain_only = False
@@ -406,12 +564,13 @@ def run(ctx: lib.Ctx) -> None:
                     chain_only = True
                 upd[c] = upd.get(c, 0) + 1
         ctx.case((t, ptr, tuple(sorted(map(repr, chain.values()))), tuple(map(repr, lit)), tuple(map(repr, script))),
-                 nontrivial=chain_only or any(c >= 2 for c in upd.values()),
+                 nontrivial=chain_only or n_forks > 0 or any(c >= 2 for c in upd.values()),
                  kind=('id' if ptr is not None else ('literal' if lit else 'empty')) + f':{t[0]}:len{len(script) // 10 * 10}',
-                 sample={**describe(t, ptr, chain, lit, script, vt), 'output': out if isinstance(out, str) else {'obs': out['obs'][:10], 'action': out['action']}})
+                 sample={**describe(t, ptr, chain, lit, full_script, vt), 'output': out if isinstance(out, str) else {'obs': out['obs'][:10], 'action': out['action']}})
         for ins in script:
             ctx.dist['op:' + ins[0]] += 1
         ctx.dist['values:' + vt.src] += 1
+        ctx.dist['forks (DUP, update the copy, keep/drop)'] += n_forks
         if ptr is not None and any(z == 0 and not vt.is_int for _, z in chain.values()):
             ctx.dist['on-chain falsy/empty value'] += 1
         if isinstance(out, str):
@@ -427,7 +586,7 @@ def run(ctx: lib.Ctx) -> None:
         if why and reported < 3:
             reported += 1
             ctx.violation('big_map: ' + why,
-                          {**describe(t, ptr, chain, lit, script, vt), 'observed': out, 'contract': src,
+                          {**describe(t, ptr, chain, lit, full_script, vt), 'observed': out, 'contract': src,
                            'repro': 'harness/c15.py run_impl(...): Interpreter.run_code(Unit, Pair <big_map> {}, contract, shell=StubShell(on-chain table), block_id="head")'})
         khtbl = clist(f'({V.value_coq(k)}, {V.cbt(script_expr(k))})' for k in pool)
         chtbl = clist(f'({V.cbt(script_expr(k))}, {cZ(z)})' for k, z in chain.values()) if ptr is not None else 'nil'
@@ -440,6 +599,20 @@ def run(ctx: lib.Ctx) -> None:
         else:
             cases.append((inp, coq_out))
             meta.append((t, pool, ptr, chain, lit, script, out, why, src, vt))
+    # ---- two on-chain big_maps with different ids and overlapping keys in one run (oracle (B) only)
+    for _ in range(ctx.n(40, 500)):
+        t, pool, ids, chains, script2, vt = gen_two_maps(rng)
+        why2, src2 = run_two_maps(t, pool, ids, chains, script2, vt)
+        ctx.case(('two', t, ids, tuple(map(repr, script2))), nontrivial=True, kind='two-big_maps',
+                 sample={'key_type': V.type_src(t), 'ids': ids, 'history': [f'{w}: {_show(i)}' for w, i in script2][:10]})
+        if why2 and reported < 3:
+            reported += 1
+            ctx.violation('two big_maps in one run: ' + why2,
+                          {'key_type': V.type_src(t), 'value_type': vt.src, 'ids': list(ids),
+                           'on_chain': [{V.value_src(k): z for k, z in c.values()} for c in chains],
+                           'history': [f'{w}: {_show(i)}' for w, i in script2], 'contract': src2,
+                           'repro': 'harness/c15.py run_two_maps(...): Interpreter.run_code(Unit, Pair (Pair idA idB) {}, contract, shell=StubShell(table), block_id="head")'})
+
     # ---- big_map literals in the storage: accepted iff the keys are strictly increasing (duplicate keys with
     #      ascending / equal / descending values, adjacent swaps, valid ones)
     lcases, lmeta = [], []
